@@ -2,10 +2,12 @@ package main
 
 import (
 	"fmt"
+	"gopkg.in/yaml.v3"
 	"io"
 	"log"
 	"net/http"
 	"net/netip"
+	"os"
 	"strings"
 	"testing"
 	"time"
@@ -92,6 +94,18 @@ func newAdminInst(allow, deny []string, token string) *adminInst {
 	cfg := baseConfig("round_robin", "http://127.0.0.1:9")
 	cfg.Backends[0].Name = "secretbackend"
 	cfg.AdminAPI = config.AdminAPIConfig{Enabled: true, Port: 9091, AuthToken: token, IPAllowList: allow, IPDenyList: deny}
+	// the production path: the configuration is what LoadConfig makes of a YAML file (falls back
+	// to the structure itself only if the file does not load)
+	if y, err := yaml.Marshal(cfg); err == nil {
+		if f, err := os.CreateTemp("", "verif-c10-*.yaml"); err == nil {
+			f.Write(y)
+			f.Close()
+			if loaded, err := config.LoadConfig(f.Name()); err == nil {
+				cfg = loaded
+			}
+			os.Remove(f.Name())
+		}
+	}
 	lb, err := loadbalancer.NewLoadBalancer(cfg)
 	if err != nil {
 		panic(err)
@@ -334,8 +348,68 @@ func TestVerifC10(t *testing.T) {
 			inst.close()
 		}
 	}
+	// ---- product C: tokens with characters that configuration layers like to interpret
+	// (variable references, comment and quote characters, spaces, non-ASCII): the token that
+	// counts is the configured string, byte for byte
+	idx++
+	if idx%shards == shard {
+		os.Unsetenv("VERIF_UNSET_VAR")
+		os.Setenv("VERIF_SET_VAR", "expanded")
+		for _, tok := range []string{"adm1n$ecret2024", "${VERIF_UNSET_VAR}", "$VERIF_UNSET_VAR", "${VERIF_SET_VAR}", "pre$VERIF_SET_VAR", "tok en", "#hash", "a:b", "'q'", "\"dq\"", "t\u00f6k\u20acn", "%41bc", "{{ .Token }}", "~", "null", "0123", "true"} {
+			inst := newAdminInst(nil, nil, tok)
+			cut := strings.IndexAny(tok, "$ #:'\"%{")
+			variants := []struct {
+				label string
+				lines []string
+				exact bool
+			}{
+				{"absent", nil, false},
+				{"exact", []string{"Bearer " + tok}, true},
+				{"empty-bearer", []string{"Bearer "}, false},
+				{"expanded", []string{"Bearer " + os.ExpandEnv(tok)}, os.ExpandEnv(tok) == tok},
+			}
+			if cut > 0 {
+				variants = append(variants, struct {
+					label string
+					lines []string
+					exact bool
+				}{"prefix-before-special-character", []string{"Bearer " + tok[:cut]}, false})
+			}
+			for _, au := range variants {
+				for _, ep := range c10Endpoints {
+					if !ep.protected {
+						continue
+					}
+					var hdr []wire.HeaderLine
+					for _, l := range au.lines {
+						hdr = append(hdr, wire.HeaderLine{"Authorization", l})
+					}
+					before := inst.state()
+					resp := inst.do("10.0.0.1", ep.request(hdr...))
+					after := inst.state()
+					evals++
+					served := resp.Err == "" && resp.Status != 401 && resp.Status != 403
+					desc := fmt.Sprintf("token %q (loaded from YAML) authorization=%s %s %s", tok, au.label, ep.method, ep.path)
+					outs.Add(fmt.Sprintf("token-chars/%v/%v", au.exact, served))
+					switch {
+					case !au.exact && served:
+						r.Violate("C10/auth/served-without-exact-bearer-token/"+au.label, fmt.Sprintf("%s: status %d", desc, resp.Status), len(tok), map[string]interface{}{"engine": "W", "test": "TestVerifC10", "token": tok, "authorization": au.lines, "endpoint": ep.path})
+					case !au.exact && before != after:
+						r.Violate("C10/refused-request-changed-state", fmt.Sprintf("%s: balancer state changed from %s to %s", desc, before, after), 3, nil)
+					case au.exact && !served:
+						r.Violate("C10/auth/refused-although-authorised/"+au.label, fmt.Sprintf("%s: status %d", desc, resp.Status), len(tok), nil)
+					}
+					if served && ep.mutates && resp.Status < 300 {
+						inst.close()
+						inst = newAdminInst(nil, nil, tok)
+					}
+				}
+			}
+			inst.close()
+		}
+	}
 	r.AddScenario(vres.Scenario{Name: "admin-access-control", Engine: "W", Evaluations: evals, Distinct: int64(outs.N()), Outcomes: outs.N(),
-		Rule:  "IP product: allow-list x deny-list (all sub-lists up to the size bound of 8 entries incl. overlapping and two malformed ones) x 14 peer addresses (IPv4, IPv6, IPv4-mapped, zoned, non-canonical spellings) x 6 forged-header variants x endpoints; token product: token configured or not x 11 Authorization spellings x 10 endpoint/method pairs x peers; judged by a net/netip reference policy; distinct = (reference verdict, served) classes",
+		Rule:  "IP product: allow-list x deny-list (all sub-lists up to the size bound of 8 entries incl. overlapping and two malformed ones) x 14 peer addresses (IPv4, IPv6, IPv4-mapped, zoned, non-canonical spellings) x 6 forged-header variants x endpoints; token product: token configured or not x 11 Authorization spellings x 10 endpoint/method pairs x peers; 17 tokens with characters a configuration layer might interpret, loaded through the real LoadConfig from YAML; judged by a net/netip reference policy; distinct = (reference verdict, served) classes",
 		Bound: fmt.Sprintf("sub-lists of size <= %d (%d x %d list pairs)", maxList, len(lists), len(lists)), Exhaustive: true, Sample: sample,
 		Extra: map[string]interface{}{"wall_s": time.Since(start).Seconds()}})
 }
